@@ -724,9 +724,178 @@ def r3(F, rep):
                     ok, detail="saving immediately after loading would not reproduce the loaded state", func=cq)
 
 
+def schedule_sites(F):
+    """(f, node, step-function name, frequency key) for every `step() % freq` in the library, step() being
+    colvarmodule::step_absolute() or step_relative()."""
+    for f in F.funcs.values():
+        if "/src/" not in f.file:
+            continue
+        seen = set()
+        for n in f.walk():
+            if n["k"] == "BinaryOperator" and n["op"] == "%":
+                a, b = X.kids(n)
+                ka = X.re_strip(X.key(a, f))
+                for fn in ("step_absolute", "step_relative"):
+                    if ka == "colvarmodule::%s()" % fn:
+                        yield f, n, fn, X.re_strip(X.key(b, f))
+
+
+def r6(F, rep):
+    rep.rule("C03-R6", "periodic schedules (output, deposition, exchange, wake-up) are functions of the ABSOLUTE step: every "
+                       "test `step % frequency` in the library takes the step from step_absolute(); the only users of "
+                       "step_relative() are the run-local caches listed in tables/c03_exempt.json (R6), which are rebuilt at "
+                       "the start of every run anyway")
+    exempt = {e["frequency"]: e["reason"] for e in load_table("c03_exempt.json").get("R6", [])}
+    n = 0
+    seen = set()
+    for f, node, fn, freq in schedule_sites(F):
+        key = "%s|%s" % (f.q, freq)
+        if (key, fn) in seen:
+            continue
+        seen.add((key, fn))
+        n += 1
+        short = freq.split(".")[-1].split("::")[-1]
+        if fn == "step_relative" and short in exempt:
+            rep.add("C03-R6", key, f.loc(node), "%s: step_relative() %% %s -- exempt: %s" % (f.q, short, exempt[short]), True, func=f.q)
+            continue
+        rep.add("C03-R6", key, f.loc(node), "%s: schedule test on %s uses %s()" % (f.q, short, fn), fn == "step_absolute",
+                detail="a run resumed at a step that is not a multiple of the frequency would follow a shifted schedule", func=f.q)
+    if n < 20:
+        raise AnalysisBroken("only %d `step %% frequency` tests found" % n)
+
+
+# --------------------------------------------------------------------------------
+def bool_eval(f, n, env, res):
+    """Evaluate a condition over an assignment of its leaf atoms (canonical keys -> bool); unknown leaves are atoms."""
+    n = X.strip(n)
+    if n["k"] == "DeclRefExpr" and res and n.get("d") in res:
+        return bool_eval(f, res[n["d"]], env, res)
+    if n["k"] == "BinaryOperator" and n["op"] == "&&":
+        a, b = X.kids(n)
+        return bool_eval(f, a, env, res) and bool_eval(f, b, env, res)
+    if n["k"] == "BinaryOperator" and n["op"] == "||":
+        a, b = X.kids(n)
+        return bool_eval(f, a, env, res) or bool_eval(f, b, env, res)
+    if n["k"] == "UnaryOperator" and n["op"] == "!":
+        return not bool_eval(f, X.kids(n)[0], env, res)
+    return env[X.re_strip(X.key(n, f, res))]
+
+
+def bool_atoms(f, n, res, out):
+    n = X.strip(n)
+    if n["k"] == "DeclRefExpr" and res and n.get("d") in res:
+        return bool_atoms(f, res[n["d"]], res, out)
+    if n["k"] == "BinaryOperator" and n["op"] in ("&&", "||"):
+        for c in X.kids(n):
+            bool_atoms(f, c, res, out)
+    elif n["k"] == "UnaryOperator" and n["op"] == "!":
+        bool_atoms(f, X.kids(n)[0], res, out)
+    else:
+        out.add(X.re_strip(X.key(n, f, res)))
+    return out
+
+
+def all_guards(f, site):
+    """[(cond node, polarity)]: enclosing if/?: conditions (whole, so disjunctions are kept) plus the edge-dominating
+    leaf conditions of the CFG (early returns)."""
+    out = [(cn, pol) for cn, pol in structural_guards(f, site) if cn is not None]
+    ids = {cn["i"] for cn, _ in out}
+    for cid, pol in f.cfg.real_guards(site):
+        if cid not in ids:
+            out.append((f.nodes[cid], pol))
+    return out
+
+
+def r7(F, rep):
+    rep.rule("C03-R7", "a parameter that is saved only under some configuration is saved under every configuration in which "
+                       "the bias uses it: for each key that a get_state_params() writes inside a condition, the member it "
+                       "stores is read (as a value) on the class's update() path only under flag assignments for which the "
+                       "writer's condition holds (truth table over the boolean atoms of both conditions)")
+    import itertools
+    n = 0
+    for w in F.funcs.values():
+        if w.name != "get_state_params" or not w.cls or not w.cfg.ok:
+            continue
+        wres = X.const_locals(w)
+        for key, lit in written_keys(w):
+            gs = all_guards(w, lit)
+            if not gs:
+                continue
+            # the member streamed after the literal
+            top = lit
+            for a in w.ancestors(lit):
+                if a["k"] == "CXXOperatorCallExpr" and a.get("op") == "<<":
+                    top = a
+                elif a["k"] != "ImplicitCastExpr":
+                    break
+            member, started = None, False
+            for x in w.walk(top):
+                if x is lit:
+                    started = True
+                elif started and x["k"] == "StringLiteral":
+                    if (x.get("v") or "").strip():
+                        break
+                elif started and x["k"] == "MemberExpr" and x.get("dk") == "Field" and X.kids(x) and X.strip(X.kids(x)[0])["k"] == "CXXThisExpr":
+                    member = x
+                    break
+            if member is None:
+                continue
+            mq = member["q"]
+            # value uses of the member on the update paths of the classes that inherit this writer
+            uses = []
+            fam = F.subclasses(w.cls, strict=False) if hasattr(F, "subclasses") else [w.cls]
+            for g in F.funcs.values():
+                if g.cls not in fam or g.name not in ("update", "update_centers", "update_acc_work", "update_k", "calc_energy", "calc_forces") or not g.cfg.ok:
+                    continue
+                for x in g.walk():
+                    if x["k"] == "MemberExpr" and x.get("q") == mq:
+                        # not the target of an assignment
+                        p = g.parent(x)
+                        if p is not None and p["k"] in ("BinaryOperator", "CompoundAssignOperator") and p.get("op") == "=" and X.strip(X.kids(p)[0]) is x:
+                            continue
+                        # values that only end up in a log or error message are diagnostics, not behaviour
+                        if any(a["k"] == "CallExpr" and a.get("cq") in ("colvarmodule::log", "colvarmodule::error") for a in g.ancestors(x)):
+                            continue
+                        uses.append((g, x))
+            if not uses:
+                continue
+            n += 1
+            watoms = set()
+            for cn, pol in gs:
+                bool_atoms(w, cn, wres, watoms)
+            witness = None
+            for g, x in uses:           # one truth table per use site
+                gres = X.const_locals(g)
+                conds = all_guards(g, x)
+                atoms = set(watoms)
+                for cn, pol in conds:
+                    bool_atoms(g, cn, gres, atoms)
+                atoms = sorted(atoms)
+                if len(atoms) > 14:
+                    witness = "too many atoms (%d) at %s" % (len(atoms), g.loc(x))
+                    break
+                for vals in itertools.product((True, False), repeat=len(atoms)):
+                    env = dict(zip(atoms, vals))
+                    written = all(bool_eval(w, cn, env, wres) == pol for cn, pol in gs)
+                    used = all(bool_eval(g, cn, env, gres) == pol for cn, pol in conds)
+                    if used and not written:
+                        witness = "%s at %s" % ({k.replace("this.", ""): v for k, v in env.items() if k in watoms}, g.loc(x))
+                        break
+                if witness is not None:
+                    break
+            rep.add("C03-R7", "%s|%s" % (w.cls, key), w.loc(lit), "%s: key `%s` (member %s) is written under %s; the member is used at %d site(s) of the update path%s" % (
+                w.cls, key, mq.split("::")[-1], [(X.text(c, w)[:60], p) for c, p in gs], len(uses),
+                "" if witness is None else "; with %s it is used but NOT saved" % (witness,)), witness is None,
+                detail="the resumed run would use the value of a freshly constructed object", func=w.q)
+    if n < 2:
+        raise AnalysisBroken("only %d conditionally written state keys with uses on an update path" % n)
+
+
 def run(F, rep, tier):
     r1(F, rep)
     r2(F, rep)
     r3(F, rep)
     r4(F, rep)
     r5(F, rep)
+    r6(F, rep)
+    r7(F, rep)
